@@ -49,7 +49,11 @@ def seq_extra(merged):
     probes, faults = {}, {}
     for m in merged.values():
         for k, v in m.get('probes', {}).items():
-            probes[k] = max(probes.get(k, 0), v) if k.startswith('max_') else probes.get(k, 0) + v
+            if isinstance(v, list):
+                old = probes.get(k, [0] * len(v))
+                probes[k] = [a + b for a, b in zip(old, v)]
+            else:
+                probes[k] = max(probes.get(k, 0), v) if k.startswith('max_') else probes.get(k, 0) + v
         for k, v in m.get('faults', {}).items():
             faults[k] = faults.get(k, 0) + v
     sub = sum(m.get('sub_runs', 0) for m in merged.values())
@@ -78,6 +82,11 @@ PROPS = {
         'Trusted: the snapshot-semantics model, the ledger, the watchdog for real hangs. Policies: SingleThreading, MultipleThreading, real SpinLock, and SimMutex/SpinLock inside one simulated task.',
         'Each evaluation is one seeded program: a history of 8-40 top-level operations whose added callbacks carry scripts (1-3 operations each, nested scripts allowed, global fuel 6-30) on CallbackList or EventDispatcher under one of 9 policy variants. '
         'Non-trivial = at least one added callback carries a script; distinct = distinct plan hashes.'),
+    'C14': seq_prop('seq_heter', [st('c14', 'seq_heter', 'c14', 300000, 6000000)],
+        'seeded histories over HeterCallbackList / HeterEventDispatcher / HeterEventQueue with five prototypes whose argument types differ in size and triviality (ledger-tracked), recycled queue slots, and every predicate prototype; per-prototype list models and a FIFO queue model; ledger turns a slot read as the wrong type into a deterministic error',
+        'Seeded search over histories that mix nine callback shapes (callable with exactly one prototype, with several, variadic), eight argument shapes (exact, convertible to one or several prototypes) and seven predicate shapes. The expected prototype of every shape is tabulated by hand ("first listed prototype it can be called with"). Checked: which callbacks run, in which order, with which (converted) argument values; queue FIFO across prototypes for process/processOne; processIf asks its predicate about exactly the queued events of its prototype and leaves every other event untouched and in place; payload integrity (pattern-filled 180-byte payload, tracked small payload, strings).',
+        'Trusted: the hand-made prototype tables. For a predicate callable with several prototypes the oracle requires only exactly-once consumption with intact arguments (the statement leaves the rest open; a declining predicate legitimately lets later events overtake earlier ones). Harness types have explicit constructors so that no accidental conversion changes prototype selection.',
+        'Each evaluation is one seeded history of 10-45 operations on one of the three heterogeneous classes (default and SingleThreading policies). Non-trivial = contains an invocation / dispatch / processing call; distinct = distinct plan hashes.'),
     'C19': seq_prop('seq_list', [st('c19', 'seq_list', 'c19', 300000, 6000000)],
         'seeded histories with a generation-clock jump fault (guarded accessor) placed anywhere, including inside nested invocations; lockstep snapshot model with the statement\'s own relaxation for invocations in progress at the wrap',
         'The wrap of the 32-bit generation counter is injected as a forward clock jump on the list\'s logical clock (k = 0..6 additions before the maximum) at seeded points of re-entrant copy/move/swap histories. The harness learns the wrap moment by observation; only invocations in progress at that moment get the statement\'s relaxation, every later invocation is held to the strict model.',
@@ -100,10 +109,10 @@ PROPS = {
         'Same generator and lockstep oracle as C05 with three comparators and keys drawn from three values so that ties are the norm; the model keeps the pending list stably sorted and merges put-back and newly enqueued events with a stable sort.',
         'Trusted: the ordered reference model (std::stable_sort).',
         'Each evaluation is one seeded history as in C05 on EventQueue with OrderedQueueList. Non-trivial = contains a processing call; distinct = distinct plan hashes.'),
-    'C10': seq_prop('seq_list', [st('c10-list', 'seq_list', 'c10', 300000, 6000000), st('c10-queue', 'seq_queue', 'c10', 200000, 4000000)],
+    'C10': seq_prop('seq_list', [st('c10-list', 'seq_list', 'c10', 300000, 6000000), st('c10-queue', 'seq_queue', 'c10', 200000, 4000000), st('c10-heter', 'seq_heter', 'c10', 200000, 4000000)],
         'seeded histories of copy/move/assign/swap over a pool of objects constructed in PRNG-dirtied storage (the injected fault), against a pool of independent models',
         'Seeded search over histories that interleave copy construction, copy assignment (incl. self), move construction, move assignment, swap (member / ADL / self), destruction and re-creation with the full operation sets of C01/C02/C05 on every pool member, for CallbackList, EventDispatcher and EventQueue; every object is placement-constructed into storage filled with random bytes, 0xFF, 0x00 or the previous occupant\'s bytes. Lists with widely different generation counters come from the C19 accessor.',
-        'Trusted: the models; the moved-from std::map is assumed empty (true for libstdc++). Self-move-assignment is not generated. Heterogeneous classes are covered by the C14 engine\'s pool operations.',
+        'Trusted: the models; the moved-from std::map is assumed empty (true for libstdc++). Self-move-assignment is not generated. The heterogeneous classes run in the third stage (same pool operations on HeterCallbackList, HeterEventDispatcher, HeterEventQueue).',
         'Each evaluation is one seeded history over a pool of up to 4 (lists/dispatchers) or 3 (queues) objects. Non-trivial = the history contains a copy/move/assign/swap; distinct = distinct plan hashes.'),
     'C08': seq_prop('seq_list', [st('c08-list', 'seq_list', 'c08', 250000, 5000000), st('c08-queue', 'seq_queue', 'c08', 200000, 4000000)],
         'live-instance ledger enforced as an invariant at every quiescent point of seeded ownership-stress programs (removal during invocation, recycled slots, copy/move/swap chains, clearEvents, destruction with pending events, generation-counter jumps), under ASan; the same ledger is also an invariant of every C03/C06/C07/C11 simulated schedule and of every C09 fault run',
